@@ -98,6 +98,10 @@ def check_text(text, acc, want_calls=False):
     acc.n += 1
     acc.validated += 1          # exploration runs on the implementation itself: every execution is judged by the oracle
     known_path = os.path.exists(text) if text and len(text) < 256 and '\x00' not in text else False
+    if known_path:
+        # the text names an existing path: only the plain-string API is exercised (finding D1); an in-memory scanner
+        # for such a text would have to reach into TokenScanner's internals
+        return _stream_only(text, acc, case)
     # 1. collecting mode with counters, then compile
     ig = IdGenerator()
     p = Parser(AstBuilder(ig))
@@ -185,6 +189,21 @@ def check_text(text, acc, want_calls=False):
         else:
             acc.violation('foreign-exception', case, 'stream raised %s: %s' % (type(e).__name__, e))
     return m.calls
+
+
+def _stream_only(text, acc, case):
+    ge = GherkinEvents(GherkinEvents.Options(print_source=True, print_ast=True, print_pickles=True))
+    try:
+        evs = list(ge.enum({'source': {'uri': 'u', 'data': text, 'mediaType': 'text/x.cucumber.gherkin+plain'}}))
+        kinds = [next(iter(e)) for e in evs if isinstance(e, dict) and e]
+        # the text itself ('.', '/', '..', 'check' ...) is not a Gherkin document: it must be rejected with parse errors
+        if 'parseError' not in kinds:
+            acc.violation('D1-source-text-names-existing-path', case,
+                          'source text %r names an existing path: the stream parsed the content of that path instead of the text' % text)
+    except Exception as e:  # noqa: BLE001
+        acc.violation('D1-source-text-names-existing-path', case,
+                      'source text %r names an existing path: TokenScanner opened it as a file: %s: %s' % (text, type(e).__name__, e))
+    return None
 
 
 # ---------------------------------------------------------------------------
